@@ -318,7 +318,8 @@ func runHistory(temp bool, limit int64, ops []op, info *runInfo) []string {
 			ms := filesys.VerifC30ReadFromDirtyPages(fh, dbuf, o.off)
 			resp := &fuse.ReadResponse{Data: make([]byte, 0, o.n)}
 			hx.Must(fh.Read(ctx, &fuse.ReadRequest{Offset: o.off, Size: int(o.n)}, resp))
-			obs = append(obs, "OR "+coqBytes(dbuf)+" "+b1(ms)+" "+coqBytes(resp.Data))
+			// the dirty-layer buffer is printed without its trailing zeros (check/C30.v pads it back)
+			obs = append(obs, "OR "+coqBytes(bytes.TrimRight(dbuf, "\x00"))+" "+b1(ms)+" "+coqBytes(resp.Data))
 			info.reads++
 			info.readBytes += len(resp.Data)
 		}
@@ -337,6 +338,22 @@ type caseT struct {
 	limit int64
 	hs    []history
 	kind  string
+}
+
+// commonPrefix: the number of leading ops shared by all histories of a batch (printed once).
+func (c caseT) commonPrefix() int {
+	if len(c.hs) < 2 {
+		return 0
+	}
+	n := len(c.hs[0].ops) - 1
+	for _, h := range c.hs[1:] {
+		k := 0
+		for k < n && k < len(h.ops)-1 && h.ops[k].canon() == c.hs[0].ops[k].canon() {
+			k++
+		}
+		n = k
+	}
+	return n
 }
 
 var binVals = []byte{1, 2, 3, 4, 5, 6, 7, 8, 14, 15, 16, 17, 18, 19, 20, 21, 22, 23, 24, 25, 26, 28, 29, 30, 31}
@@ -386,7 +403,7 @@ func exhCase(temp bool, limit int64, prefixLen int, prefixIdx int) caseT {
 	var hs []history
 	for last := 0; last < 32; last++ {
 		ops := append(append([]op(nil), pre...), exhWrite(last, prefixLen+1))
-		ops = append(ops, op{kind: opRead, off: 0, n: 12}, op{kind: opFlush})
+		ops = append(ops, op{kind: opRead, off: 0, n: 11}, op{kind: opFlush})
 		hs = append(hs, history{ops})
 	}
 	return caseT{temp, limit, hs, fmt.Sprintf("exh-len%d", prefixLen+1)}
@@ -531,8 +548,10 @@ func main() {
 	info := &runInfo{}
 	for _, c := range cases {
 		var hterms, canon []string
+		var preOps, preObs []string
 		before := *info
-		for _, h := range c.hs {
+		npre := c.commonPrefix()
+		for hi, h := range c.hs {
 			obs := runHistory(c.temp, c.limit, h.ops, info)
 			ops := make([]string, len(h.ops))
 			cs := make([]string, len(h.ops))
@@ -540,10 +559,17 @@ func main() {
 				ops[i] = o.coq()
 				cs[i] = o.canon()
 			}
-			hterms = append(hterms, "("+hx.List(ops)+", "+hx.List(obs)+")")
+			// the common prefix is printed once; every history must have produced the same observations on it
+			if hi == 0 {
+				preOps, preObs = ops[:npre], obs[:npre]
+			} else if strings.Join(ops[:npre], ";") != strings.Join(preOps, ";") || strings.Join(obs[:npre], ";") != strings.Join(preObs, ";") {
+				panic("c30 harness: the implementation is not deterministic on the common prefix of a batch")
+			}
+			hterms = append(hterms, "("+hx.List(ops[npre:])+", "+hx.List(obs[npre:])+")")
 			canon = append(canon, strings.Join(cs, ","))
 		}
-		term := fmt.Sprintf("{| tempfile := %s; limit := %s; hists := %s |}", hx.Bool(c.temp), hx.Z(c.limit), hx.List(hterms))
+		term := fmt.Sprintf("{| tempfile := %s; limit := %s; pre := (%s, %s); hists := %s |}",
+			hx.Bool(c.temp), hx.Z(c.limit), hx.List(preOps), hx.List(preObs), hx.List(hterms))
 		nontrivial := info.saves > before.saves && info.readBytes > before.readBytes
 		out.Add(term, fmt.Sprintf("%v/%d/", c.temp, c.limit)+strings.Join(canon, "|"), nontrivial, c.kind)
 		out.Count("histories", len(c.hs))
